@@ -74,6 +74,11 @@ func (s *Sim) begin(rpc int, side byte, g int, op string) *Event {
 }
 
 func (s *Sim) end(ev *Event, err error) {
+	if ev.RPC >= 0 && ev.RPC < len(s.rpcs) && s.rpcs[ev.RPC].r.Transport == TGRPC {
+		// grpc-go's own goroutines are not instrumented: an operation that
+		// blocked inside it comes back while whoever woke it is still running
+		simrt.Woken("grpc-return")
+	}
 	s.mu.Lock()
 	s.seq++
 	ev.RSeq = s.seq
@@ -125,6 +130,7 @@ func guard(ev *Event, f func() error) (err error) {
 func (s *Sim) sleep(d time.Duration) {
 	s.addInstant(time.Now().Add(d))
 	time.Sleep(d)
+	simrt.Woken("sleep")
 }
 
 type mdHolder struct{ md metadata.MD }
@@ -714,6 +720,8 @@ func (s *Sim) lookupRPCctx(svc, meth string, ctx context.Context) *rpcState {
 }
 
 func (s *Sim) handlerEnter(rs *rpcState, ctx context.Context, via string) *Event {
+	simrt.Adopt(fmt.Sprintf("h%d", rs.r.ID), rs.r.ID)
+	simrt.Yield(fmt.Sprintf("h%d:enter", rs.r.ID))
 	s.mu.Lock()
 	rs.handlerEntered++
 	rs.handlerCtx = ctx
@@ -1053,4 +1061,5 @@ func (s *Sim) waitCtx(ctx context.Context, ev *Event) {
 	case <-s.endCh:
 		ev.Note = "NEVER-CANCELLED"
 	}
+	simrt.Woken("waitctx")
 }
